@@ -70,6 +70,8 @@ def collect_obligations(env, con):
         if ph is not None:
             ex.point_hook = lambda e, stmt, s, o, ghost=ghost, args=args: ph(Ctx(e, s, args, ghost=ghost), stmt, o)
         st0.locals = dict(args)
+        for ax in con.ghost_axioms(Ctx(ex, st0, args, ghost=ghost)):
+            st0.assume(ax)
         for (nm, f) in con.pre(Ctx(ex, st0, args, ghost=ghost)):
             st0.assume(f)
         old = st0.fork()
